@@ -9,6 +9,7 @@ CONSTANT RoleMenu <- RM0
 CONSTANT DocMenu <- DMa2
 CONSTANT Lims <- L012
 CONSTANT MaxSteps = 7
+CONSTANT Thin = 40
 CONSTANT PageGap = TRUE
 SPECIFICATION Spec
 VIEW view
@@ -20,4 +21,6 @@ INVARIANT RevokedUnfetchable
 INVARIANT NoSpuriousRevoke
 INVARIANT ReplicaExactM
 INVARIANT NoSilentDropM
+INVARIANT CandExport
+INVARIANT NontrivExport
 CHECK_DEADLOCK FALSE
